@@ -266,5 +266,41 @@ TEXTS = {
                  "supplies, per declaration, the symbol an swc id maps to and resolve_dependency's answer (data)."),
         "technique": "Coq proof (DFS with shared visited set: invariant + closure argument giving the least fixed point; fuel bound) + differential testing of the extracted model against ModuleInfoRef::exports + proved-sound checkers (translation validation) on real symbol tables and go-to-definition results + watchdog",
     },
+    "C08": {
+        "text": ("Layers (a) and (c') of DESIGN.md C08. (a) Coq theorems, for ALL texts (lists of Unicode scalar values: "
+                 "non-ASCII, astral, CR, CRLF, BOM), over executable models of Position::from_source_pos as computed by "
+                 "text_lines (Model/TextPos.v: LF is the only line break, columns count scalar values, an offset inside a "
+                 "character has that character's position, a leading U+FEFF occupies no column), of the nine pragma "
+                 "regexes + is_comment_triple_slash_reference with Rust-regex semantics (Model/Pragma.v: leftmost-first, "
+                 "(?i) with the U+017F fold, Unicode White_Space, negated classes matching LF) and of "
+                 "comment_source_to_position_range: offset<->position round trip on every character boundary "
+                 "(C08_pos_roundtrip; the two exceptions - offset 0 of a BOM-led text, offsets inside a character - are "
+                 "refuted by witnesses that agree with text_lines), monotonicity, every recogniser captures a contiguous "
+                 "piece of the comment text lying directly between two quote characters unless quote-less "
+                 "(C08_recognise_capture), and the headline C08_range_exact: for any prefix, comment kind, comment text "
+                 "with a match, and suffix, the computed range mapped back onto the whole source is exactly the matched "
+                 "specifier with its quotes; PositionRange/Dependency::includes and the first-match lookup return exactly "
+                 "the dependency whose range contains the position when ranges of different dependencies share no "
+                 "position (C08_lookup; touching ranges refuted because both ends are inclusive). (c') The REAL analyser "
+                 "and the REAL graph module are run on every module source embedded in tests/specs/**/*.txt and on "
+                 "thousands of generated programs; each reported range is mapped back with the extracted offset_of_pos "
+                 "and judged by proved decision procedures (literal/quoted/quote-less slice equality with the cooked "
+                 "value taken from the real parser, pairwise separation, planted = reported as multisets, lookups through "
+                 "the real includes); pragma items are re-derived by the model from the real comment and must equal what "
+                 "was reported; the recognisers are compared with the real regex functions on 500 000 comment texts and "
+                 "pos_of_offset with text_lines on every byte offset of 20 000 texts. Two genuine defects are recorded "
+                 "(F-C08a HTML-like comments: ranges off by one/two characters and a panic; F-C08b a quote-less pragma "
+                 "capture that swallows a JSDoc import). Partial: the collector over real syntax is not modelled "
+                 "(layer (b)); 'exactly once' is decided per generated program, not proved."),
+        "design_ref": "DESIGN.md section 5 C08",
+        "note": ("Trusted: Coq kernel; extraction; the harness's flattening of ModuleInfo into (category, kind, text, range) "
+                 "items, its choice of the comment a pragma item sits in (nearest real comment), the cooking of a literal "
+                 "by the real swc parser, the generator's bookkeeping of what it planted. The SWC parser, its comment "
+                 "attachment rules and the monch JSDoc mini-parsers are not modelled: their output is judged. The "
+                 "inverse map used for slicing is the model's own offset_of_pos (proved inverse of the modelled "
+                 "text_lines map); the real PositionRange::as_source_range is additionally compared with it on every "
+                 "reported range. tests/testdata holds only .wasm files (no module text to analyse)."),
+        "technique": "Coq proof (structural induction on the text; parser-combinator style recognisers with a capture invariant) + extracted-model differential testing against regex/text_lines + proved decision procedures run on real analyser output (corpus and generated)",
+    },
 }
 NOT_YET = {}
